@@ -13,7 +13,7 @@
 EXTENDS Reduce, FiniteSets
 
 CONSTANTS NMax,       \* rank-1 sizes 1..NMax
-          Rate,       \* keep 1 of Rate of the non-canonical cases
+          Rate,       \* small families (trace, issym, isorth, det): keep 1 of Rate of the headers outside the canonical strata
           AllPos,     \* TRUE: the single extreme element visits every position (else the vector-width boundary set)
           DetMax,     \* determinant sizes 1..DetMax
           Draws,      \* data draws per determinant header
@@ -58,8 +58,6 @@ ShapesK == {<<3, 4>>, <<5, 7>>, <<2, 3, 5>>, <<4, 4, 4>>}
 \* (widths 2, 4, 8, 16: the last lane of the first vector, the first lane of the second, the last full vector, the scalar tail)
 PosSeq(n) == SelectSeq(<<1, n, 2, 3, 4, 5, 8, 9, 16, 17, 32, 33, n - 1, (n \div 2) * 2, (n \div 4) * 4, (n \div 4) * 4 + 1,
                          (n \div 8) * 8, (n \div 8) * 8 + 1, (n \div 16) * 16, (n \div 16) * 16 + 1>>, LAMBDA p : p >= 1 /\ p <= n)
-PosSet(n) == {PosSeq(n)[i] : i \in 1..Len(PosSeq(n))}
-ExprOps(arg) == arg \in {"expr", "cmp_es"}
 
 -----------------------------------------------------------------------------------------
 (* family fold:  sum product min max norm  on  tensor | a+b | view *)
@@ -96,7 +94,6 @@ FoldOffered(h) ==
     /\ (h.fn = "norm" => h.T \in FTypes)          \* norm of an integer tensor takes an integer square root (truncates): not a fold of the property
     /\ (h.arg \in {"view", "fview"} => Len(h.shape) = 1)     \* views: contiguous window of a longer rank-1 parent
     /\ (h.arg = "member" => h.fn \in {"sum", "product"})
-FoldKeep(h) == TRUE
 FoldBuild(h) ==
     LET n == NEl(h.shape)
         key == HKey(h.fn, h.T, h.arg, h.shape, h.sign, h.pos, 2)
@@ -122,7 +119,7 @@ FoldBuild(h) ==
        THEN Case("fold", h.fn, h.T, h.arg, h.shape, g, h.pos, "", "", 0, 0, [i \in 1..n |-> V[i] - Bv[i]], Bv, <<>>, <<>>)
        ELSE Case("fold", h.fn, h.T, h.arg, h.shape, g, h.pos, "", "", 0, 0, V, <<>>, <<>>, <<>>)
 FoldValue(x) == IF x.B = <<>> THEN x.A ELSE Plus(x.A, x.B)
-FoldCases(u) == { x \in { FoldBuild(h) : h \in {h \in FoldHeaders(0) : FoldOffered(h) /\ FoldKeep(h)} } :
+FoldCases(u) == { x \in { FoldBuild(h) : h \in {h \in FoldHeaders(0) : FoldOffered(h)} } :
                   x.sign = "psq" => IsSquare(SumSq(FoldValue(x))) }        \* drop psq headers for which no completing element exists
 
 -----------------------------------------------------------------------------------------
@@ -146,8 +143,6 @@ PredHeaders(u) ==
     \cup { LET k == Mix((Seed % P) + 2000, j)
                f == Pick(PredFnSeq, k)   a == Pick(PredArgs, Mix(k, 2))   s == Pick(PredShapeSeq, Mix(k, 3))   g == Pick(PredSigns, Mix(k, 4))
            IN PredH(f, Pick(TypeSeq, Mix(k, 1)), a, s, g, PredP(g, NEl(s), Mix(k, 5)), Pick(OpSeq, Mix(k, 6))) : j \in 1..PredExtra }
-PredOffered(h) == TRUE
-PredKeep(h) == TRUE
 PredBuild(h) ==
     LET n == NEl(h.shape)
         key == HKey(h.fn, h.T, h.arg, h.shape, h.sign, h.pos, 3 + Idx(OpSeq, h.op))
@@ -172,7 +167,7 @@ PredBuild(h) ==
     IN IF h.arg = "cmp_es"
        THEN Case("pred", h.fn, h.T, h.arg, h.shape, g, h.pos, h.op, "", 0, thr, [i \in 1..n |-> X[i] - Bv[i]], Bv, Cv, <<>>)
        ELSE Case("pred", h.fn, h.T, h.arg, h.shape, g, h.pos, h.op, "", 0, thr, X, <<>>, Cv, <<>>)
-PredCases(u) == { PredBuild(h) : h \in {h \in PredHeaders(0) : PredOffered(h) /\ PredKeep(h)} }
+PredCases(u) == { PredBuild(h) : h \in PredHeaders(0) }
 
 -----------------------------------------------------------------------------------------
 (* families iseq / inner:  two operands, each a tensor or a lazy sum *)
@@ -194,7 +189,6 @@ IseqHeaders(u) ==
                s == Pick(PredShapeSeq, Mix(k, 3))   g == Pick(<<"equal", "diff", "diff">>, Mix(k, 4))   n == NEl(s)
            IN IseqH(Pick(TypeSeq, Mix(k, 1)), Pick(BinArgs, Mix(k, 2)), s, g,
                     IF g = "diff" THEN (IF AllPos THEN 1 + (Mix(k, 5) % n) ELSE Pick(PosSeq(n), Mix(k, 5))) ELSE 0) : j \in 1..IseqExtra }
-IseqKeep(h) == TRUE
 IseqBuild(h) ==
     LET n == NEl(h.shape)
         key == HKey(h.fn, h.T, h.arg, h.shape, h.sign, h.pos, 5)
@@ -202,7 +196,7 @@ IseqBuild(h) ==
         Y == [i \in 1..n |-> IF i = h.pos THEN X[i] + 2 * Rnd(key, 77, 0, 1) - 1 ELSE X[i]]       \* near miss: one element off by one
         o == BinOperands(h.arg, X, Y, key, n)
     IN Case("iseq", h.fn, h.T, h.arg, h.shape, h.sign, h.pos, "", "", 0, 0, o[1], o[2], o[3], o[4])
-IseqCases(u) == { IseqBuild(h) : h \in {h \in IseqHeaders(0) : IseqKeep(h)} }
+IseqCases(u) == { IseqBuild(h) : h \in IseqHeaders(0) }
 
 InnerHeaders(u) ==
     { [fn |-> "inner", T |-> t, arg |-> a, shape |-> s, sign |-> g, pos |-> 0] :
@@ -225,7 +219,6 @@ InnerCases(u) == { InnerBuild(h) : h \in {h \in InnerHeaders(0) : InnerKeep(h)} 
 
 -----------------------------------------------------------------------------------------
 (* family trace:  trace (n x n), trace of a batch <<b, n, n>>, inner(a) of a uniform rank-k tensor *)
-UnaryArgs(h) == h.arg \in {"tensor", "expr"}
 TraceShapes == {<<n, n>> : n \in 1..12}
 BatchShapes == {<<2, 2, 2>>, <<3, 2, 2>>, <<2, 3, 3>>, <<3, 4, 4>>}
 Inner1Shapes == {<<1>>, <<5>>, <<9>>, <<1, 1>>, <<2, 2>>, <<3, 3>>, <<4, 4>>, <<5, 5>>, <<2, 2, 2>>, <<3, 3, 3>>, <<2, 2, 2, 2>>}
